@@ -252,3 +252,17 @@ package execution
 //@   ensures sorted: forall(p, 0, len(result) - 1, wk(c, result[p]) < wk(c, result[p+1]))
 //@   ensures complete: forallK(k, old(thas(c.timeKeys, k)) && due(c, k) ==> exists(j, 0, len(result), wk(c, result[j]) == k))
 //@   ensures frame: c.watermark == old(c.watermark) && c.endOfStreamReached == old(c.endOfStreamReached)
+
+// C11/C06/C07: a function call evaluates every argument (the first failure is returned), and yields NULL without calling
+// the function as soon as one of the arguments it was told to NULL-check (the nullable arguments of a strict function)
+// is NULL. The indices to check are valid argument positions (caller obligation of NewFunctionCall).
+//@ spec checksOK(idx []int, n int) bool = forall(j, 0, len(idx), 0 <= idx[j] && idx[j] < n)
+//@ func NewFunctionCall
+//@   requires indices: checksOK(nullCheckIndices, len(args))
+//@   ensures built: result != nil
+//@ func (*FunctionCall).Evaluate
+//@   requires indices: checksOK(c.nullCheckIndices, len(c.args))
+//@   loop 1 invariant args: len(argValues) == len(c.args) && forall(j, 0, $k, evalErr(c.args[j], ctx) == nil && same(argValues[j], evalVal(c.args[j], ctx)))
+//@   loop 2 invariant checked: forall(j, 0, $k, argValues[c.nullCheckIndices[j]].TypeID != 0)
+//@   ensures errprop: (exists(j, 0, len(c.args), evalErr(c.args[j], ctx) != nil)) ==> result1 != nil
+//@   ensures strictnull: result1 == nil && (exists(j, 0, len(c.nullCheckIndices), evalVal(c.args[c.nullCheckIndices[j]], ctx).TypeID == 0)) ==> result0.TypeID == 0
